@@ -101,7 +101,13 @@ def run_wire_trace(EoWriter, EoReader, calls, salt=0):
     """Execute write calls, then the matching read-back; returns the observation row for Bulk_EoWire."""
     w = EoWriter()
     ws = []
+    early = early_reader = early_copy = None
     for c in calls:
+        if early is None and len(ws) == 1:
+            # the output taken now (and a reader over it) must not change, nor get in the way, when more is written
+            early = w.to_bytearray()
+            early_copy = list(early)
+            early_reader = EoReader(early)
         san = bool(w.string_sanitization_mode)
         exc = ""
         try:
@@ -117,11 +123,13 @@ def run_wire_trace(EoWriter, EoReader, calls, salt=0):
         rc = matching_read(c, j == len(acc) - 1)
         ret, exc = do_read(r, rc)
         rs.append({"call": rc, "ret": ret, "exc": exc})
-    return {"w": ws, "r": rs, "rem": r.remaining}
+    stable = 1 if early is None or list(early) == early_copy else 0
+    del early_reader
+    return {"w": ws, "r": rs, "rem": r.remaining, "stable": stable}
 
 
 # ---- random call sequences (pattern V inputs) ----
-POOLS = ["abcxyz AZ09", "ÿÿ~~!\"", "€Œ™éü", "\u0080\u0081\u0085\u009fĀ�", "\U0001F600́中",
+POOLS = ["abcxyz AZ09", "ÿÿ~~!\"", "\x7f\x00\x1f !\"}P~", "€Œ™éü", "\u0080\u0081\u0085\u009fĀ�", "\U0001F600́中",
          "".join(chr(c) for c in range(0x20, 0x7f))]
 LIMITS = {"add_byte": 256, "add_char": 253, "add_short": 253 ** 2, "add_three": 253 ** 3, "add_int": 253 ** 4}
 
